@@ -131,6 +131,9 @@ class MultiMarker(BaseMarker):
                 common_markers = [
                     marker for marker in self.markers if marker in shared_markers
                 ]
+                if unique_union.is_any() and len(common_markers) == 1:
+                    # nothing but the one shared marker is left: it stands for itself
+                    return common_markers[0]
                 return unique_union & MultiMarker(*common_markers)
 
         return None
